@@ -1527,8 +1527,9 @@ def run(ctx):
             return dict(coverage=dict(evaluations=0, distinct_nontrivial=0, rule="replay", samples=[]),
                         violations=[violation("replay:unknown-scenario", f"no scenario named {want}", False)])
         scns, workers = scns[:1], 1
-    tie_threads, tie_out = ([], {}) if ctx.get("replay") else start_crypto_ties(ctx)
     recs = run_all(scns, workers)
+    # (started only after the fork pool is done: forking with live threads deadlocks the workers)
+    tie_threads, tie_out = ([], {}) if ctx.get("replay") else start_crypto_ties(ctx)
     for r in recs:
         if "harness_error" in r:
             raise HarnessError(r["harness_error"])
